@@ -72,6 +72,10 @@ fn toml_for(subset: u32, wrong: Option<(usize, i64)>, t: &Truth) -> String {
                     s.push_str("chip_orders_ob = [[0, 1, 2, 3, 4, 5, 6], [8, 9, 10, 11, 12, 13, 14]]\n");
                 } else if delta < 0 {
                     s.push_str("chip_orders_ob = [[0, 1, 2, 3, 4, 6, 5], [8, 9, 10, 11, 12, 13, 14]]\n");
+                } else if delta == 2 {
+                    s.push_str("chip_orders_ob = [[0, 1, 2, 3, 4, 5], [8, 9, 10, 11, 12, 13]]\n");
+                } else if delta == 3 {
+                    s.push_str("chip_orders_ob = [[0, 1, 2, 3, 4, 5, 6, 7], [8, 9, 10, 11, 12, 13, 14, 15]]\n");
                 } else {
                     s.push_str("chip_orders_ob = [[1, 2, 3, 4, 5, 6, 7]]\n");
                 }
@@ -253,6 +257,11 @@ pub fn run(tier: Tier) -> i32 {
             if subset & (1 << k) != 0 {
                 cases.push((subset, Some((k, -1))));
                 cases.push((subset, Some((k, 1))));
+                if k == 4 {
+                    // configured orders that are strict prefixes / extensions of the observed chip lists
+                    cases.push((subset, Some((k, 2))));
+                    cases.push((subset, Some((k, 3))));
+                }
             }
         }
     }
